@@ -61,7 +61,11 @@ class Point(tuple[int | None, int | None]):
 
     def __neg__(self) -> Point:
         """Unary negation"""
-        return self.__class__(self[0], self._curve.p() - self[1], self._curve)  # type: ignore[operator]
+        if self[1] is None:
+            # the point at infinity is its own inverse
+            return self._curve.infinity()
+        # build a plain Point: self.__class__ may be a Generator, whose constructor takes curve parameters
+        return self._curve.Point(self[0], self._curve.p() - self[1])  # type: ignore[arg-type, operator]
 
     def curve(self) -> Curve:
         """:return: the :class:`Curve <pycoin.ecdsa.Curve>` this point is on"""
